@@ -1,5 +1,6 @@
 import AITB.Model.Proto
 import AITB.Model.POMDP
+import AITB.Gen.C02Sites
 open AITB AITB.POMDP
 open AITB.MDP (sumTo maxTo argmaxTo Vec mkVec absR)
 
@@ -123,7 +124,9 @@ def rtbss : P String := do
   if !(validB m) then return "skip invalid_model"
   if !(simplexB m.S b) then return "skip invalid_belief"
   let _ := dyadic
-  let (ma, mv) := rtSample m τ maxR h b
+  -- the model follows the two RTBSS source sites found by tools/extract_c02.py on this run
+  let cfg : RtCfg := ⟨AITB.Gen.C02.rtbssGeometricBound, AITB.Gen.C02.rtbssCompareInsidePrune⟩
+  let (ma, mv) := rtSampleC cfg m τ maxR h b
   let e := expectimax m h b
   let validBound := allLt m.S (fun s => allLt m.A (fun a => decide (m.R s a ≤ maxR)))
   if !validBound then return "skip maxR_not_an_upper_bound"
@@ -141,7 +144,7 @@ def rtbss : P String := do
   let v := v.diffIf (!(closeQ tol9 mv iv)) s!"RTBSS value model={ratStr mv} impl={ratStr iv}"
   -- the action is compared only when the model's choice is well separated (strict comparisons on near-ties are rounding-sensitive)
   let wellSep := h == 0 || allLt m.A (fun a => a == ma || !(closeQ (tol9 * 1000) (qOf m (expectimax m (h - 1)) b a) (qOf m (expectimax m (h - 1)) b ma)))
-  let v := v.diffIf (wellSep && !neg && ma != ia) s!"RTBSS action model={ma} impl={ia}"
+  let v := v.diffIf (wellSep && ma != ia) s!"RTBSS action model={ma} impl={ia}"
   return v.render
 
 def handle (toks : List String) : String :=
